@@ -304,6 +304,11 @@ example : tenantShard true [⟨10, 0, 0⟩, ⟨20, 1, 1⟩, ⟨30, 2, 0⟩, ⟨4
 example : tenantShard true [⟨10, 0, 0⟩, ⟨20, 1, 1⟩, ⟨30, 2, 0⟩, ⟨40, 3, 1⟩] 2 [⟨.exact, 6, ["big"], []⟩] "big"
     (fun _ => [1, 2, 3]) = .tooBig := by decide
 example : tenantShard false [⟨10, 0, 0⟩, ⟨20, 1, 1⟩, ⟨30, 2, 0⟩, ⟨40, 3, 1⟩] 3 [] "t" (fun _ => [15, 15, 15]) = .nodes [1, 2, 3] := by decide
+-- C21_pick_count: three positions on a zone of four nodes (two sections each) pick three distinct nodes,
+-- whatever the positions — here two of them hit the same node first
+example : pickZone [⟨10, 0, 0⟩, ⟨20, 1, 0⟩, ⟨30, 2, 0⟩, ⟨40, 3, 0⟩, ⟨50, 0, 0⟩, ⟨60, 1, 0⟩, ⟨70, 2, 0⟩, ⟨80, 3, 0⟩]
+    ([15, 15, 99].take 3) [] = [1, 2, 0] := by decide
+example : (zoneNodes [⟨10, 0, 0⟩, ⟨20, 1, 0⟩, ⟨30, 2, 0⟩, ⟨40, 3, 0⟩, ⟨50, 0, 0⟩]).length = 4 := by decide
 example : shardSize 2 [⟨.other, 5, ["t"], []⟩, ⟨.glob, 3, ["t*"], [.yes]⟩] "t" = 3 := by decide
 example : getCachedSeq (fun t => if t = "bad" then none else some t.length) 1 [] ["a", "bb", "a", "bad", "a"]
     = [some 1, some 2, some 1, none, some 1] := by decide
